@@ -383,6 +383,17 @@ pub fn parse_amount(input: &str) -> Result<f64, ParseError> {
         })
 }
 
+/// Length of an amount text as the d format counts it: the decimal comma is part of the
+/// format, so a text written without one takes the place the comma needs as well
+/// ("123456789012345" does not fit 15d: it is written back as "123456789012345,").
+pub fn amount_text_len(input: &str) -> usize {
+    if input.contains(',') || input.contains('.') {
+        input.len()
+    } else {
+        input.len() + 1
+    }
+}
+
 /// Whether two amounts are the same decimal number
 ///
 /// Amounts are read from decimal texts of at most 15 characters into binary floats, and a sum
@@ -463,7 +474,13 @@ pub fn validate_amount_decimals(amount: f64, currency: &str) -> Result<(), Parse
 /// - Decimal precision exceeds currency limit (C03)
 pub fn parse_amount_with_currency(input: &str, currency: &str) -> Result<f64, ParseError> {
     // every amount that stands next to a currency code is a 15d component
-    if input.len() > 15 {
+    // (an amount in a currency without decimals is written back without the comma)
+    let text_len = if get_currency_decimals(currency) == 0 {
+        input.len()
+    } else {
+        amount_text_len(input)
+    };
+    if text_len > 15 {
         return Err(ParseError::InvalidFormat {
             message: format!(
                 "Amount must not exceed 15 characters, found {}",
